@@ -82,6 +82,7 @@ func (fr *FuncRun) callCommon(f *Frame, st *State, c *ssa.CallCommon, fnVal Val,
 	fr.callOrdGlobal[name] = ord
 	// call-site assertions declared in the contract of the function under verification
 	fr.atCallAsserts(f, st, c, name, ord, fnVal, args, pos)
+	fr.ghostUpdates(f, st, c, name, fnVal, args)
 	// ghost call counter
 	fr.bumpCallCount(st, name)
 
